@@ -63,7 +63,8 @@ def main(tier, seed):
         "S->C: every frame of the small scope (Design_MC) x 14 formula shapes, built by /repo and compared cell by cell and "
         "label by label with the Abs design; C->S: random worlds (3-20 rows, 2-4 levels per factor, str / Categorical / "
         "ordered Categorical / integer-via-C columns, numeric calls) x generated formulas, each build judged by Design_Trace, "
-        "and the same designs evaluated on new data (all training rows reordered and partly repeated) judged against the same labels. "
+        "and the same designs evaluated on new data (all training rows reordered and partly repeated) judged against the same labels; "
+        "training designs read only after they were evaluated (and printed) on frames with never-seen levels. "
         "Non-trivial = distinct (formula, data) cases whose design has >= 3 (S->C) / >= 4 (C->S) columns."
     )
     rep.assumptions = [
@@ -80,11 +81,13 @@ def main(tier, seed):
         design_trace.run(rep, "C04", 900, seed, {"nmax": 16})
         design_trace.run(rep, "C04", 700, seed, {"nmax": 16, "quarters": True, "salt": 44})
         design_trace.run(rep, "C04", 700, seed, {"nmax": 12, "newdata": True, "salt": 45, "hier": 0.4})
+        design_trace.run(rep, "C04", 500, seed, {"nmax": 12, "after_unseen": True, "salt": 46})
     else:
         design_mc.run(rep, "C04", seed, n=4, nf=3, ng=2, xfull=False)
         design_mc.run(rep, "C04", seed, n=3, nf=3, ng=3, xfull=True)
         design_trace.run(rep, "C04", 25000, seed, {"nmax": 30, "max_terms": 5})
         design_trace.run(rep, "C04", 15000, seed, {"nmax": 30, "max_terms": 5, "quarters": True, "salt": 44})
         design_trace.run(rep, "C04", 15000, seed, {"nmax": 24, "max_terms": 5, "newdata": True, "salt": 45, "hier": 0.4})
+        design_trace.run(rep, "C04", 8000, seed, {"nmax": 24, "max_terms": 5, "after_unseen": True, "salt": 46})
     rep.exhaustive = True
     return rep.finish()
